@@ -246,11 +246,11 @@ def jobs(chk, tier):
     keep = C.rng('c17-keep')
     for r, g, cfg in T.records(chk, tier, INVS):
         if 't3' in cfg or 'free3' in cfg:
-            if keep.random() > 0.04:
+            if not C.pick([r.get('input'), g], 0.04, 'c17-keep'):
                 continue
         if r.get('reject') or any(o.get('kind') == 'A' for o in r['input']):
             continue            # (curve objects are addressed like wires; main() orders arcs before wires)
-        yield (r, g, 'solve' if rnd.random() < frac else 'nosolve', sd)
+        yield (r, g, 'solve' if C.pick([r['input'], g], frac, 'c17-solve') else 'nosolve', sd)
 
 
 def run(tier):
